@@ -519,7 +519,13 @@ fn events_background_case(pre: &'static str, line: &'static str, ok: bool, want:
 }
 
 fn events_background_lines() {
-    match kani::any::<u8>() % 12 {
+    match kani::any::<u8>() % 16 {
+        // a video name is judged by its last three BYTES: no dot needed, longer "extensions"
+        // ending in a video suffix count as video, non-ASCII names must not panic
+        12 => events_background_case("old.png", "Video,0,\"cover\"", true, "cover"),
+        13 => events_background_case("old.png", "1,0,\"intro.xMP4\"", true, "old.png"),
+        14 => events_background_case("old.png", "Video,0,\"na\u{ef}ve\"", true, "na\u{ef}ve"),
+        15 => events_background_case("old.png", "Video,0,\"a.\"", true, "old.png"),
         // a background line always sets the background
         0 => events_background_case("old.png", "0,0,\"bg.jpg\",0,0", true, "bg.jpg"),
         1 => events_background_case("", "Background,0,bg.jpg", true, "bg.jpg"),
@@ -540,7 +546,7 @@ fn events_background_lines() {
     kani::cover!(true, "reached");
 }
 
-// @verif property=C11,C06,C01 tier=quick timeout=1200 mem=16 bounds="[Events] background / video / sprite / other lines: 12 concrete lines x concrete previous background (precedence rule)"
+// @verif property=C11,C06,C01 tier=quick timeout=1200 mem=16 bounds="[Events] background / video / sprite / other lines: 16 concrete lines x concrete previous background (precedence rule)"
 oracle_proof!(c11_ev_background, 48, events_background_lines());
 
 /// Colours: R,G,B with optional ignored alpha; wrong field counts and bad numbers are rejected.
@@ -585,3 +591,27 @@ oracle_proof!(c11_col_combo4, 24, colors_line("Combo1: $a,$b,$c,$d", 4, false));
 oracle_proof!(c11_col_combo2, 24, colors_line("Combo1: $a,$b", 2, false));
 // @verif property=C11,C06,C01 tier=quick timeout=900 mem=16 bounds="[Colours] 'SliderBorder: $a,$b,$c' overriding the entry of the same name"
 oracle_proof!(c11_col_named, 24, colors_line("SliderBorder: $a,$b,$c", 3, true));
+
+/// A named colour whose name differs from an existing one only in case is a NEW entry.
+fn colors_named_other_case() {
+    let mut st = Colors::default();
+    st.custom_colors = Vec::with_capacity(4);
+    st.custom_colors.push(CustomColor { name: String::from("SliderBorder"), color: Color::new(9, 9, 9, 255) });
+    let (r, g, b) = (stubs::seed_u8(b'a'), stubs::seed_u8(b'b'), stubs::seed_u8(b'c'));
+    let res = Colors::parse_colors(&mut st, tok_line("sliderborder: $a,$b,$c"));
+    let accepted = r.is_some() && g.is_some() && b.is_some();
+    assert!(res.is_ok() == accepted);
+    assert!(st.custom_colors[0].color.0 == [9, 9, 9, 255], "a differently-cased name overwrote an existing colour");
+    if accepted {
+        assert!(st.custom_colors.len() == 2);
+        assert!(st.custom_colors[1].name.as_bytes() == b"sliderborder");
+        assert!(st.custom_colors[1].color.0 == [r.unwrap(), g.unwrap(), b.unwrap(), 255]);
+        kani::cover!(true, "second entry added");
+    } else {
+        assert!(st.custom_colors.len() == 1);
+    }
+    core::mem::forget(st);
+}
+
+// @verif property=C11,C03,C06,C01 tier=quick timeout=900 mem=16 bounds="[Colours] 'sliderborder: $a,$b,$c' next to an existing 'SliderBorder' (names are case-sensitive: a new entry)"
+oracle_proof!(c11_col_named_other_case, 24, colors_named_other_case());
